@@ -20,7 +20,7 @@ func init() {
 			"wide scenario: every NAL type 1-23 x NRI 0-3 alone and after an SPS/PPS pair; units of 300, 257*(MTU-2)+1 (more than 256 fragments), 70000 bytes for MTU {5,100,1200}; SPS/PPS of {6,255,256,257,700,32766} x {6,255,256,300,32765} bytes at MTU 1200 and 65535; all sequences of 5 (thorough: 6) units over {slice 2B, slice MTU+1, SPS+PPS pair, lone SPS, lone PPS} split over three calls",
 			"unit bodies: EVERY body of 1-7 bytes (thorough: 8) over {00,01,03,FF} that is legal inside a NAL unit (no 00 00 00 / 00 00 01, no trailing 00) as a type-5 unit between two other units, 3- and 4-byte start codes, MTU {5,100}",
 			"second instance: in the wide scenario every case also runs with an unrelated second H264Payloader (holding an SPS, fed fragmented units in between) and H264Packet (holding an unfinished FU-A unit) whose calls are interleaved with those of the instances under test",
-			"runs of 60 calls on one payloader and one depacketizer, cycling through a pattern of 2, 3, 5 or 7 access units (SPS+PPS+IDR, a slice of MTU+1 bytes, a small slice, an AUD plus a slice, SPS+PPS alone, two small slices, a slice of 3*MTU bytes) for MTU {8,100,1200}",
+			"runs of 60 calls on one payloader and one depacketizer, cycling through a pattern of 2, 3, 5 or 7 access units (SPS+PPS+IDR, a slice of MTU+1 bytes, a small slice, an AUD plus a slice, SPS+PPS alone, two small slices, a slice of 3*MTU bytes) for MTU {8,100,1200}, with parameter sets that differ from one access unit to the next or are repeated byte for byte",
 			"decoder side: F bit 0, FU-A trains of 2-5 fragments with every split point of units of up to 8 bytes, also with an empty first, middle or last fragment",
 		},
 		Scenarios: []mc.Scenario{
@@ -566,7 +566,14 @@ func c10Run60(c *mc.Ctx) {
 	disableStapA := c.Bool()
 	avc := c.Bool()
 	period := mc.From(c, []int{2, 3, 5, 7})
-	u := func(t uint8, n int, seed int) []byte { return ref.H264Unit(t, uint8(1+seed%3), n, byte(seed*13)) }
+	// what an encoder does: every key frame repeats the same parameter sets, byte for byte
+	sameSets := c.Bool()
+	u := func(t uint8, n int, seed int) []byte {
+		if sameSets && (t == 7 || t == 8) {
+			seed = 1
+		}
+		return ref.H264Unit(t, uint8(1+seed%3), n, byte(seed*13))
+	}
 	var calls [][][]byte
 	var codes [][]int
 	for i := 0; i < 60; i++ {
